@@ -6,6 +6,8 @@ A unit file (verus/units/*.vunit) is a list of sections:
   #include <file>            -- the lines of verus/units/<file> are read in place (text shared between units)
   #item [<path>::]<stripped first line>  -- a const / struct / enum copied verbatim from the source (from <path> if
                              -- given, else #source); attribute lines (`#[..]`) inside it are dropped and counted
+  #count <path>::<regex> == N  -- census: the regex must occur exactly N times in the non-test part of <path>
+                             -- (every sink call site is under contract); otherwise the unit is undecided
   #text                      -- verbatim Verus text (struct re-declaration, spec fns, lemmas) until next '#'-directive
   #impl <Type> / #endimpl    -- wraps extracted fns in `impl <Type> { .. }`
   #fn <signature first line, stripped>      -- anchor of the real function in #source
@@ -164,6 +166,10 @@ def parse_unit(path):
             elif d in ("gsubst", "gsubst-re"):
                 old, _, new = arg.partition(" => ")
                 (gsub if d == "gsubst" else gsub_re).append((old.strip(), new.strip()))
+            elif d == "count":
+                # `#count <path>::<regex> == N`: census of call sites; a mismatch makes the unit undecided (LostAnchor)
+                m = re.match(r"(\S+\.rs)::(.*) == (\d+)$", arg)
+                unit["items"].append(("count", {"source": m.group(1), "regex": m.group(2), "n": int(m.group(3))}))
             elif d == "text":
                 buf = []
                 unit["items"].append(("text", buf))
@@ -272,6 +278,17 @@ def assemble(unit, repo):
             report.append({"item": val["anchor"], "source": val["source"], "byte_range": list(rng),
                            "sha256_real_text": hashlib.sha256(srcs[sp][rng[0]:rng[1]].encode()).hexdigest(),
                            "dropped_attribute_lines": nattr, "substitutions": isub, "lost_ghost_anchors": []})
+        elif kind == "count":
+            sp = os.path.join(repo, val["source"])
+            if not os.path.exists(sp):
+                raise LostAnchor("source %s is gone" % val["source"])
+            txt = open(sp).read()
+            cut = txt.find("#[cfg(test)]\nmod tests")          # the census is over non-test code
+            n = len(re.findall(val["regex"], txt if cut < 0 else txt[:cut]))
+            if n != val["n"]:
+                raise LostAnchor("census: %d occurrences of /%s/ in %s, the unit covers %d — a call site was added or removed"
+                                 % (n, val["regex"], val["source"], val["n"]))
+            report.append({"census": val["regex"], "source": val["source"], "occurrences": n, "lost_ghost_anchors": []})
         elif kind == "impl":
             out.append("impl %s {" % val)
         elif kind == "endimpl":
